@@ -116,6 +116,17 @@ func runOnce(src string, deadline time.Duration, tickLimit int64) *runResult {
 			atomic.AddInt64(&nilOnOpen, 1)
 		}
 	})
+	e.Define("pval", func(v interface{}) int64 {
+		switch x := v.(type) {
+		case *int64:
+			if x != nil {
+				return *x
+			}
+		case int64:
+			return x
+		}
+		return -999999
+	})
 	e.Define("out", func(v interface{}) {
 		mu.Lock()
 		if !sealed {
